@@ -1250,6 +1250,9 @@ class Term(Container):
                 key = "denom" if exponent < 0 else "num"
             else:
                 key = 'remainder'
+                # objects in the remainder keep the sign of their exponent
+                ret[key] *= o.sympy
+                continue
             ret[key] *= Pow(base, abs(exponent))
         return ret
 
